@@ -20,9 +20,19 @@ func concGroups(env *core.Env, groups int) []core.Case {
 	for g := 0; g < groups; g++ {
 		k := 2 + r.Intn(5)
 		var subs []gen.M
+		// one group in three uses a single package only (state shared inside one package shows when two
+		// of its own entry points overlap), the others mix the packages
+		only := -1
+		if g%3 == 0 {
+			only = []int{0, 3, 4, 5, 6, 6, 7}[r.Intn(7)]
+		}
 		for j := 0; j < k; j++ {
 			var c gen.M
-			switch r.Intn(8) {
+			pick := r.Intn(8)
+			if only >= 0 {
+				pick = only
+			}
+			switch pick {
 			case 0, 1, 2: // CNF with many conflicts (local tier): two solvers learning at the same time
 				nv := 25 + r.Intn(25)
 				clauses := gen.RandKSAT(r, nv, int(4.26*float64(nv)), 3)
@@ -53,7 +63,17 @@ func concGroups(env *core.Env, groups int) []core.Case {
 				c["tm"] = "MaxSatTrace"
 			case 6: // MUS extraction / unsat subset (starts a solver goroutine internally)
 				n, clauses := unsatBiasedCNF(r, 5)
+				if r.Intn(2) == 0 { // real certificates with several lines
+					n = 6 + r.Intn(3)
+					clauses = gen.RandKSAT(r, n, int(4.6*float64(n)), 3)
+				}
 				ev := []gen.M{{"op": "mus", "method": []string{"MUSDeletion", "MUSInsertion", "MUSMaxSat"}[r.Intn(3)]}, {"op": "subset"}}
+				switch r.Intn(3) {
+				case 0: // the certificate checker on the solver's own certificate, intact or damaged
+					ev = []gen.M{{"op": "check", "entry": []string{"reader", "chan"}[r.Intn(2)], "src": "solver", "cert": [][]int{}, "mut": []string{"none", "drop", "flip"}[r.Intn(3)], "seed": r.Intn(1 << 20)}, {"op": "subset"}}
+				case 1:
+					ev = append(ev, gen.M{"op": "check", "entry": "reader", "src": "solver", "cert": [][]int{}, "mut": "none", "seed": r.Intn(1 << 20)})
+				}
 				c = gen.M{"drv": "explain", "n": n, "clauses": clauses, "ev": ev, "tm": "ExplainTrace"}
 			default: // boolean formula
 				k := 2 + r.Intn(4)
